@@ -286,6 +286,28 @@ def run_all(tier, seed):
             fails.append(common.Failure("oracle", f"C14:sortc-raises:{type(e).__name__}", f"sort_classes raised {e}", ctx))
         ctxs.append(ctx)
         distinct.add(lines[-1])
+    # ---- hybrid classes: every declared dependency (hybrid class, plain struct, array class) is emitted, once, before the class
+    for k in range(8 if tier == "quick" else 200):
+        uid = f"{seed}x{k}x{r.randrange(10**6)}"
+        Plain = type(f"HDP{uid}", (xo.Struct,), {"t": xo.Float64})
+        Helper = type(f"HDH{uid}", (xo.HybridClass,), {"_xofields": {"q": xo.Int64}})
+        PArr = Plain[:]
+        pool = [(Plain, Plain.__name__), (Helper, Helper._XoStruct.__name__), (PArr, PArr.__name__)]
+        deps = r.sample(pool, r.randrange(1, 4))
+        hctx = {"component": "topo", "op": "hybrid-depends-on", "depends_on": [n for _, n in deps]}
+        try:
+            Elem = type(f"HDE{uid}", (xo.HybridClass,), {"_xofields": {"x": xo.Float64}, "_depends_on": [c for c, _ in deps]})
+            names = [c.__name__ for c in sort_classes([Elem._XoStruct])]
+            me = Elem._XoStruct.__name__
+            for _c, dn in deps:
+                if names.count(dn) != 1 or me not in names or names.index(dn) > names.index(me):
+                    fails.append(common.Failure("oracle", "C14:declared-dependency-missing", f"hybrid class with _depends_on {hctx['depends_on']}: emission order {names}: {dn} is not emitted exactly once before {me}", hctx))
+                    break
+            tags["hybrid-depends-on"] += 1
+        except ValueError as e:
+            fails.append(common.Failure("oracle", "C14:false-cycle", f"hybrid class with _depends_on {hctx['depends_on']}: {str(e)[:120]}", hctx))
+        except Exception as e:
+            fails.append(common.Failure("oracle", f"C14:sortc-raises:{type(e).__name__}", f"hybrid class with _depends_on {hctx['depends_on']}: {str(e)[:160]}", hctx))
     got = common.run_driver("topo", lines)
     mism = []
     for l, e, g, ctx in zip(lines, expect, got, ctxs):
